@@ -1,8 +1,8 @@
 package store
 
 import (
-	"database/sql"
 	"context"
+	"database/sql"
 	"fmt"
 	"math/big"
 	"math/rand"
@@ -25,12 +25,12 @@ type bridgeKind struct {
 	twinN int
 	opts  Options
 
-	dict  *names.Dict
-	ref   *names.AppendTree     // reference exit tree of the surviving history
-	hist  []bblock              // surviving history (what a node that never saw the dropped blocks has)
-	atoms map[int]*bridgesync.Bridge // leaf atom -> the deposit as generated
-	other map[string]int        // key(block,pos) of generated non-tree events -> id
-	seenRoots []common.Hash     // every root the reference ever had (incl. dead forks), for by-hash queries
+	dict      *names.Dict
+	ref       *names.AppendTree          // reference exit tree of the surviving history
+	hist      []bblock                   // surviving history (what a node that never saw the dropped blocks has)
+	atoms     map[int]*bridgesync.Bridge // leaf atom -> the deposit as generated
+	other     map[string]int             // key(block,pos) of generated non-tree events -> id
+	seenRoots []common.Hash              // every root the reference ever had (incl. dead forks), for by-hash queries
 	maxLeaves int
 	nOther    int
 }
@@ -211,7 +211,9 @@ func (k *bridgeKind) applied(op Op) {
 	}
 }
 
-func (k *bridgeKind) reorg(ctx context.Context, from uint64) error { return k.node.VerifReorg(ctx, from) }
+func (k *bridgeKind) reorg(ctx context.Context, from uint64) error {
+	return k.node.VerifReorg(ctx, from)
+}
 
 func (k *bridgeKind) reorged(from uint64) int {
 	keep, leaves := 0, 0
@@ -454,9 +456,9 @@ var bridgeDeny = map[string]bool{
 	"Start": true, "OriginNetwork": true, "BlockFinality": true, "GetLastReorgEvent": true,
 }
 
-func (k *bridgeKind) kindSeed() int64     { return k.seed }
-func (k *bridgeKind) setSeed(s int64)     { k.seed = s }
-func (k *bridgeKind) workDir() string     { return k.dir }
+func (k *bridgeKind) kindSeed() int64 { return k.seed }
+func (k *bridgeKind) setSeed(s int64) { k.seed = s }
+func (k *bridgeKind) workDir() string { return k.dir }
 
 // prepare records what process would have recorded about the block, without processing it (the block is processed by a child process).
 func (k *bridgeKind) prepare(op Op) {}
